@@ -15,8 +15,8 @@ Org(t, x) == IF HasRelative(t, x) THEN Origin ELSE NoOrigin
 
 Init == ty \in Types /\ v \in Vectors(ty) /\ ft = <<"none", 0, 0>>
 Next == /\ ft = <<"none", 0, 0>>
-        /\ WellFormed(ty, v) /\ CanEncode(ty, v, Org(ty, v))
-        /\ ft' \in FaultSet(Encode(ty, v, Org(ty, v)))
+        /\ (WellFormed(ty, v) /\ CanEncode(ty, v, Org(ty, v))) = TRUE   \* "= TRUE": evaluate as a value, not as an action
+        /\ ft' \in FaultSet(Encode(ty, v, Org(ty, v)), Len(PRE))
         /\ UNCHANGED <<ty, v>>
 Spec == Init /\ [][Next]_vars
 
@@ -38,6 +38,6 @@ Reencode ==
         d.res # "err" =>
             LET w == Encode(ty, d.v, NoOrigin)   \* decoded without origin: all names absolute
                 d2 == Dec(ty, w, NoOrigin) IN
-            /\ (TypeInfo[ty].unique /\ ~PointerIn(ty, b)) => w = b
+            /\ (TypeInfo[ty].unique /\ ~d.ptr) => w = b
             /\ d2.res # "err" /\ d2.v = d.v /\ Encode(ty, d2.v, NoOrigin) = w
 =============================================================================
